@@ -53,7 +53,7 @@ def entities(C, tier):
                 out["NC"] = "/".join(nc)
                 out["SC"] = "/".join(sc)
     if tier != "thorough":
-        for k in ("D1", "A2", "F3", "F2"):
+        for k in ("D1", "A2", "F2"):       # (F3, the second version of F1's task, stays: a '>' needs two candidates)
             out.pop(k, None)
     return out
 
